@@ -79,7 +79,10 @@ def generate(seed, tier, index):
         elif r < 0.84:
             k = rng.randint(0, len(names)) if v["rule"] == "AnyOfMany" else rng.randint(0, 1)
             steps.append({"op": "d_selects", "dev": "SW", "vec": v["name"], "els": rng.sample(names, k)})
-        elif r < 0.93:
+        elif r < 0.88:
+            # the driver hides / shows a switch at run time (element.enabled); the rule keeps counting hidden switches
+            steps.append({"op": "d_eenable", "dev": "SW", "vec": v["name"], "el": rng.choice(names), "value": rng.random() < 0.5})
+        elif r < 0.94:
             steps.append({"op": "gap", "dt": rng.choice([0.0, 0.001, 0.1, 2.0])})
             if rng.random() < 0.5:
                 steps[-1]["iters"] = rng.randint(1, 8)
@@ -163,6 +166,9 @@ def execute(scen):
             if origin == "driver" and tag == "setSwitchVector" and message.name in vspecs:
                 vals = [c.value for c in message.children]
                 rule = vspecs[message.name]["rule"]
+                if len(vals) != len(vspecs[message.name]["elements"]):
+                    vals = list(cur(message.name).values())  # some switches are hidden: the update is a partial view, judge the full state
+                    probes["update_published_with_hidden_switches"] = probes.get("update_published_with_hidden_switches", 0) + 1
                 if pre_ok[message.name] and not rule_ok(rule, vals):
                     viol.append({"clause": "C09.published", "detail": f"published setSwitchVector {message.name} ({rule}) carries {[(c.name, c.value) for c in message.children]} "
                                  f"although the vector satisfied its rule before the operation ({pre[message.name]})", "facts": dict(facts, rule=rule)})
@@ -182,6 +188,10 @@ def execute(scen):
                     if mv is not None:
                         vals = [mv.get_element(n).value for n in mv.list_elements()]
                         rule = vspecs[msg.name]["rule"]
+                        if len(vals) != len(vspecs[msg.name]["elements"]) or msg.name in ever_hidden:
+                            # a partial or possibly stale view: hiding a switch publishes nothing (the library's element-enabled
+                            # setter is silent), so a client may still hold a hidden member - nothing to judge on the client side
+                            return r
                         ok = rule_ok(rule, vals)
                         key = (node.name, msg.name)
                         if last_ok.get(key, False) and not ok and pre_ok_seen.get(msg.name, True):
@@ -191,8 +201,10 @@ def execute(scen):
 
             node.client.process_message = spy
         pre_ok_seen = {}
+        ever_hidden = set()
 
         initial_ok = dict(pre_ok)
+        hidden = set()
         vetoed = {tuple(x) for x in scen.get("veto_handlers", [])}
 
         def quiescent_rule_check(where):
@@ -215,6 +227,12 @@ def execute(scen):
                 continue
             if op == "start_client":
                 apply_step(stack, st)
+                continue
+            if op == "d_eenable":
+                apply_step(stack, st)
+                hidden.add((st["vec"], st["el"])) if not st["value"] else hidden.discard((st["vec"], st["el"]))
+                if not st["value"]:
+                    ever_hidden.add(st["vec"])
                 continue
             vname = st["vec"]
             vs = vspecs[vname]
@@ -298,7 +316,10 @@ def execute(scen):
                     if mv is None:
                         continue
                     vals = {nme: mv.get_element(nme).value for nme in mv.list_elements()}
-                    if vals != cur(vn):
+                    visible_truth = {k: v for k, v in cur(vn).items() if (vn, k) not in hidden}
+                    if vn in ever_hidden or set(vals) != set(visible_truth):
+                        continue  # visibility changed without a re-definition (the setter publishes nothing): membership is C01/C07's business
+                    if vals != visible_truth:
                         viol.append({"clause": "C09.published", "detail": f"{node.name} ends with {vn}={vals}, driver has {cur(vn)}", "facts": facts})
                         break
         digest = sim.digest()
